@@ -258,6 +258,12 @@ func deleteFilteredData[T any](remoteWrite bool, existingData []T, filterData *F
 
 	var result []T
 	for i := range existingData {
+		// an item the filter does not address is kept as it is and cannot fail the write
+		if filterData.Selector != nil && !filterData.SelectorMatch(util.Ptr(existingData[i])) {
+			result = append(result, existingData[i])
+			continue
+		}
+
 		writeAllowed := writeAllowed(existingData[i])
 		if !writeAllowed && remoteWrite {
 			success = false
